@@ -265,33 +265,69 @@ impl<'a, 'r> Wit<'a, 'r> {
         _ => return None,
       }),
       GType2::EnumInline(g) => {
-        let es: Vec<&GEntry> = g.choices.iter().flat_map(|c| c.entries.iter()).collect();
-        if es.is_empty() {
+        let mut tys = vec![];
+        self.enum_types_group(g, 0, &mut tys);
+        if tys.is_empty() {
           return None;
         }
-        match es[self.rng.usize(es.len())] {
-          GEntry::Val { ty, .. } => self.of_type(ty, d),
-          _ => None,
-        }
+        let t = tys[self.rng.usize(tys.len())].clone();
+        self.of_type(&t, d)
       }
-      GType2::EnumName(n, _) => {
-        let defs = self.rules_named(n, true);
-        if defs.is_empty() {
+      GType2::EnumName(n, args) => {
+        let mut tys = vec![];
+        self.enum_types_entry(&GEntry::Name { occ: None, name: n.clone(), args: args.clone() }, 0, &mut tys);
+        if tys.is_empty() {
           return None;
         }
-        match &defs[self.rng.usize(defs.len())].body {
-          GBody::Group(GEntry::Val { ty, .. }) => self.of_type(ty, d),
-          GBody::Group(GEntry::Inline { group, .. }) => {
-            let es: Vec<&GEntry> = group.choices.iter().flat_map(|c| c.entries.iter()).collect();
-            match es.get(self.rng.usize(es.len().max(1))) {
-              Some(GEntry::Val { ty, .. }) => self.of_type(ty, d),
-              _ => None,
-            }
-          }
-          _ => None,
-        }
+        let t = tys[self.rng.usize(tys.len())].clone();
+        self.of_type(&t, d)
       }
       GType2::Unwrap(..) => None,
+    }
+  }
+
+  /// the entry types a choice-from-group `&` offers: every entry of every group choice, through
+  /// inline groups and references to (possibly generic) group rules
+  fn enum_types_group(&mut self, g: &GGroup, depth: usize, out: &mut Vec<GType>) {
+    for c in &g.choices {
+      for e in &c.entries {
+        self.enum_types_entry(e, depth, out);
+      }
+    }
+  }
+
+  fn enum_types_entry(&mut self, e: &GEntry, depth: usize, out: &mut Vec<GType>) {
+    if depth > 6 {
+      return;
+    }
+    match e {
+      GEntry::Val { ty, .. } => {
+        // a lone group name is a group reference
+        if let Some(GType1 { t2: GType2::Name(n, a), op: None }) = ty.single() {
+          if self.rules_named(n, false).is_empty() && !self.rules_named(n, true).is_empty() {
+            self.enum_types_entry(&GEntry::Name { occ: None, name: n.clone(), args: a.clone() }, depth + 1, out);
+            return;
+          }
+        }
+        out.push(ty.clone());
+      }
+      GEntry::Inline { group, .. } => self.enum_types_group(group, depth + 1, out),
+      GEntry::Name { name, args, .. } => {
+        let defs: Vec<GRule> = self.rules_named(name, true).into_iter().cloned().collect();
+        for r in defs {
+          if let GBody::Group(e2) = &r.body {
+            if r.params.is_empty() {
+              self.enum_types_entry(e2, depth + 1, out);
+            } else if r.params.len() == args.len() {
+              let wrapped = GType { choices: vec![t1(GType2::Array(GGroup { choices: vec![GChoice { entries: vec![e2.clone()] }] }))] };
+              let inst = subst_type(&wrapped, &r.params, args);
+              if let GType2::Array(g) = &inst.choices[0].t2 {
+                self.enum_types_group(g, depth + 1, out);
+              }
+            }
+          }
+        }
+      }
     }
   }
 
@@ -323,6 +359,8 @@ impl<'a, 'r> Wit<'a, 'r> {
           for _ in 0..self.count(occ) {
             if !self.rules_named(name, true).is_empty() && args.is_empty() {
               self.seq_group_rule(name, d, out, depth)?;
+            } else if let Some(c) = self.instantiate_group(name, args) {
+              self.seq(&c, d, out, depth + 1)?;
             } else {
               out.push(self.of_t2(&GType2::Name(name.clone(), args.clone()), d.saturating_sub(1))?);
             }
@@ -337,6 +375,24 @@ impl<'a, 'r> Wit<'a, 'r> {
       }
     }
     Some(())
+  }
+
+  /// `name<args>` where `name` is a generic group rule: its entry with the parameters substituted
+  fn instantiate_group(&mut self, name: &str, args: &[GType1]) -> Option<GChoice> {
+    let defs = self.rules_named(name, true);
+    let defs: Vec<_> = defs.into_iter().filter(|r| r.params.len() == args.len() && !args.is_empty()).collect();
+    if defs.is_empty() {
+      return None;
+    }
+    let r = defs[self.rng.usize(defs.len())];
+    if let GBody::Group(e) = &r.body {
+      let wrapped = GType { choices: vec![t1(GType2::Array(GGroup { choices: vec![GChoice { entries: vec![e.clone()] }] }))] };
+      let inst = subst_type(&wrapped, &r.params, args);
+      if let GType2::Array(g) = &inst.choices[0].t2 {
+        return g.choices.first().cloned();
+      }
+    }
+    None
   }
 
   fn seq_group_rule(&mut self, n: &str, d: usize, out: &mut Vec<DV>, depth: usize) -> Option<()> {
@@ -383,8 +439,14 @@ impl<'a, 'r> Wit<'a, 'r> {
             out.push((kv, v));
           }
         }
-        GEntry::Name { occ, name, .. } => {
+        GEntry::Name { occ, name, args } => {
           for _ in 0..self.count(occ) {
+            if !args.is_empty() {
+              if let Some(c) = self.instantiate_group(name, args) {
+                self.members(&c, d, out, depth + 1)?;
+                continue;
+              }
+            }
             self.members_group_rule(name, d, out, depth)?;
           }
         }
